@@ -340,6 +340,12 @@ theorem step_circ_cases [DecidableEq Tag] (C : Crypto Tag Sess Blob) (n : Node S
       · split
         · exact h0
         · split <;> exact h0
+  | join cid' ident nodePk key y offered =>
+    left
+    simp only [step, joinCircuit]
+    split
+    · exact h0
+    · split <;> exact h0
   | extend cid' ident nodePk key ag toCid number =>
     left
     simp only [step, onExtend]
@@ -426,6 +432,11 @@ theorem step_absent [DecidableEq Tag] (C : Crypto Tag Sess Blob) (n : Node Sess)
       · split
         · exact h0
         · split <;> exact h0
+  | join cid' ident nodePk key y offered =>
+    simp only [step, joinCircuit]
+    split
+    · exact h0
+    · split <;> exact h0
   | extend cid' ident nodePk key ag toCid number =>
     simp only [step, onExtend]
     split
@@ -733,6 +744,14 @@ def entryKeys (n : Node Sess) (cid : Nat) : Option Sess :=
 /-- no circuit id is both an exit socket and a relay route -/
 def Disjoint (n : Node Sess) : Prop := ∀ cid, n.exits cid = none ∨ n.relays cid = none
 
+/-- side condition for a RESUMED join (`.join`, only reachable with an overridden, suspending should_join_circuit):
+    if the created cache for that id is not (or no longer) there, the id is not in use at the node — i.e. the policy
+    did not suspend the join for longer than `unstable_timeout` after a competing join of the same id completed -/
+def JoinTimely (n : Node Sess) : Ev Tag Blob → Prop
+  | .join cid _ _ _ _ _ =>
+    n.created cid = none → n.exits cid = none ∧ n.relays cid = none ∧ n.circuits cid = none
+  | _ => True
+
 /-- exits / relays after one step: only on_create (adds an exit socket under an unused id) and the relay branch of
     on_created (moves an exit socket to a pair of relay routes with the same keys) touch them -/
 theorem step_joined [DecidableEq Tag] (C : Crypto Tag Sess Blob) (n : Node Sess) (e : Ev Tag Blob) :
@@ -744,7 +763,9 @@ theorem step_joined [DecidableEq Tag] (C : Crypto Tag Sess Blob) (n : Node Sess)
       n.circuits req.toCid = none ∧ n.relays req.toCid = none ∧ n.exits req.toCid = none ∧
       (step C n e).1.exits = upd n.exits req.fromCid none ∧
       (step C n e).1.relays = upd (upd n.relays req.toCid (some ⟨req.fromCid, req.peer, ex.keys, false⟩))
-        req.fromCid (some ⟨req.toCid, req.toPeer, ex.keys, true⟩)) := by
+        req.fromCid (some ⟨req.toCid, req.toPeer, ex.keys, true⟩)) ∨
+    (∃ cid ident nodePk key y offered h, e = .join cid ident nodePk key y offered ∧ n.created cid = none ∧
+      (step C n e).1.exits = upd n.exits cid (some h) ∧ (step C n e).1.relays = n.relays) := by
   have origin : ∀ cid ident key auth cands env,
       (originAnswer C n cid ident key auth cands env).1.exits = n.exits ∧
       (originAnswer C n cid ident key auth cands env).1.relays = n.relays := by
@@ -769,7 +790,7 @@ theorem step_joined [DecidableEq Tag] (C : Crypto Tag Sess Blob) (n : Node Sess)
         by_cases hused : ((n.circuits req.toCid).isSome || (n.relays req.toCid).isSome ||
             (n.exits req.toCid).isSome) = true
         · left; simp [step, onCreated, hcr, hex, hused]
-        · right; right
+        · right; right; left
           have hu := hused
           simp only [Bool.or_eq_true, not_or, Option.isSome_iff_ne_none, ne_eq, Classical.not_not] at hu
           refine ⟨cid, ident, key, auth, cands, env, req, ex, rfl, hcr, hex, hu.1.1, hu.1.2, hu.2, ?_, ?_⟩ <;>
@@ -794,6 +815,16 @@ theorem step_joined [DecidableEq Tag] (C : Crypto Tag Sess Blob) (n : Node Sess)
           · right; left
             simp only [Bool.or_eq_true, not_or, Option.isSome_iff_ne_none, ne_eq, Classical.not_not] at hused
             exact ⟨cid, _, hused.2, hused.1.2, hused.1.1, rfl, rfl⟩
+  | join cid ident nodePk key y offered =>
+    simp only [step, joinCircuit]
+    split
+    · left; exact ⟨rfl, rfl⟩
+    · split
+      · left; exact ⟨rfl, rfl⟩
+      · next hc =>
+        right; right; right
+        simp only [Option.isSome_iff_ne_none, ne_eq, Classical.not_not] at hc
+        exact ⟨cid, ident, nodePk, _, y, offered, _, rfl, hc, rfl, rfl⟩
   | extend cid ident nodePk key ag toCid number =>
     left
     simp only [step, onExtend]
@@ -832,5 +863,10 @@ theorem resend_creates [DecidableEq Tag] (C : Crypto Tag Sess Blob) (n : Node Se
   · simp only [step]; split <;> rfl
   · simp only [step]; split <;> rfl
 
+
+/-- every resumed join of a trace is timely -/
+def RunTimely [DecidableEq Tag] (C : Crypto Tag Sess Blob) : Node Sess → List (Ev Tag Blob) → Prop
+  | _, [] => True
+  | n, e :: es => JoinTimely n e ∧ RunTimely C (step C n e).1 es
 
 end Ipv8.C08
